@@ -41,6 +41,38 @@ var ruleErrSites = &Rule{
 					cls := p.classNames(e.callClasses(c, 0, nil))
 					key := fmt.Sprintf("%s: error site #%d", fnName(fn), ord.next(fnName(fn)))
 					good := len(cls) == 1 && (cls[0] == "Verbose" || cls[0] == "Hard" || cls[0] == "Ctx" || cls[0] == "Invalid")
+					if !good && p.isErrCtor(fn) {
+						// a constructor helper that is handed the sentinel
+						// (`argErr(class error, format string, …)`): judged where it
+						// is called
+						ncall, badAt := 0, ""
+						for _, g := range p.execFuncs() {
+							for _, cc := range p.allCalls(g) {
+								if cc.Call.StaticCallee() != fn {
+									continue
+								}
+								ncall++
+								ccls := p.classNames(e.classify(cc, nil, map[ssa.Value]bool{}))
+								allGood := len(ccls) > 0
+								for _, k := range ccls {
+									if k != "Verbose" && k != "Hard" && k != "Ctx" && k != "Invalid" {
+										allGood = false
+									}
+								}
+								if !allGood && badAt == "" {
+									badAt = p.pos(cc.Pos()) + " (class " + strings.Join(ccls, ",") + ")"
+								}
+							}
+						}
+						if ncall > 0 && badAt == "" {
+							out.ok(key, p.pos(c.Pos()), fnName(fn), fmt.Sprintf("a constructor helper: each of its %d calls hands it an exec sentinel to wrap", ncall))
+							continue
+						}
+						if badAt != "" {
+							out.viol(key, p.pos(c.Pos()), fnName(fn), "the constructor helper is called at "+badAt+" with something other than an exec sentinel to wrap: callers cannot classify the error with errors.Is(err, exec.ErrExecution)")
+							continue
+						}
+					}
 					if good {
 						out.ok(key, p.pos(c.Pos()), fnName(fn), "class "+cls[0])
 					} else {
@@ -572,10 +604,7 @@ var ruleVerboseUse = &Rule{
 	Run: func(p *Prog) *RuleOut {
 		out := newOut("R-VERBOSEUSE")
 		vf := p.A.VerboseField
-		entry := map[*ssa.Function]bool{}
-		for _, n := range p.A.EntryOrder {
-			entry[p.ssaOf(p.A.Entry[n])] = true
-		}
+		entry := p.entrySet()
 		failedK, unknownK := constOf(p.A.StatusFailed), constOf(p.A.PredUnknown)
 		n := 0
 		ord := ordinals{}
